@@ -175,6 +175,9 @@ def finish(mod, prop, tier, seed, m, wall, write_evidence, quiet) -> int:
             got = m["tallies"].get(key, 0)
         if got < mn:
             inconclusive.append(f"threshold not met: {key} = {got} < {mn}")
+    for key, v in m["tallies"].items():
+        if key.startswith("timeout:"):
+            inconclusive.append(f"per-call watchdog fired {v}x: {key[8:]} (a call did not return within its generous wall-clock budget)")
     if m["tallies"].get("anchor-unresolvable"):
         inconclusive.append("anchor not resolvable: " + " | ".join(n for n in m["notes"] if n.startswith("anchor"))[:600])
 
